@@ -17,6 +17,20 @@ CLAIMED = {
             "leaf count and ordered roots are compared with the definitional reference forest after every transition; "
             "states are de-duplicated on a canonical dump of the concrete implementation state. Exhaustive within the bound, "
             "which is where batching/zombie-root/power-of-two corner cases live.", "6 C01"),
+    "C02": ("hist", "explicit-state BFS over block histories; all leaf subsets x request orders per state vs reference proofs",
+            "In every state of the C01 search every non-empty subset of the leaves an instance tracks is requested from every prover "
+            "(Pollard, full and partial MapPollard, several TotalRows) in all permutations for small sets and sorted/reversed/rotated "
+            "order otherwise; returned targets and proof hashes must equal the reference model's canonical proof, every verifier must "
+            "accept it and Verify must report exactly the trees containing the targets. Exhaustive within Nmax.", "6 C02"),
+    "C06": ("hist", "explicit-state BFS over block histories with Undo transitions (budgeted) vs reference model",
+            "Undo is a transition of the search (newest first, budget 2-3 per path, arbitrary interleaving with further blocks, so "
+            "undo depth k and redo on the same or another branch are covered). After every transition on a path containing an undo the "
+            "roots, leaf count, every leaf's position, provable set, byte-identical canonical proofs and GetHash of every position are "
+            "compared with the reference forest of the model state, for Pollard, full and partial MapPollard.", "6 C06"),
+    "C10": ("hist", "explicit-state BFS over block histories (+undo, restore, verify-remember) with exhaustive look-up probing per state",
+            "In every reached state (forward up to Nmax 8-9; with undo, serialize/restore and Verify(remember) transitions up to Nmax 4-5) "
+            "GetLeafPosition/GetLeafHashPositions are probed with every leaf ever added, every internal-node hash, a fresh and the zero hash, "
+            "GetHash with every position in [0,2^(rows+1)+2] and four giant values, and the tracked-leaf counts are compared with the reference.", "6 C10"),
 }
 
 NOT_YET = {
@@ -53,7 +67,7 @@ def main():
             "add_only": True,
         },
         "engines": [
-            {"name": "hist", "path": "/verif/vmc/mc/hist.go", "serves_properties": ["C01"],
+            {"name": "hist", "path": "/verif/vmc/mc/hist.go", "serves_properties": ["C01", "C02", "C06", "C10"],
              "kind_free_text": "explicit-state breadth-first search over operation histories; every transition is executed on the real implementation and compared with a reference model"},
         ],
         "checks": checks,
